@@ -12,14 +12,15 @@ open Trion.Dict
 theorem occAll_bounds {lo : Nat} {ps : Segs} (ok : Ok lo ps) :
     ps.length ≤ occSegs ps 0 4294967296 ∧
     occSegs ps 0 4294967296 + ps.length ≤ 4294967296 + 1 - lo ∧
-    occSegs ps 0 4294967296 ≤ 4294967296 - lo := by
+    occSegs ps 0 4294967296 ≤ 4294967296 - lo ∧
+    (ps.length = 0 → occSegs ps 0 4294967296 = 0) := by
   induction ps generalizing lo with
-  | nil => simp only [occSegs, List.length_nil]; omega
+  | nil => simp [occSegs]
   | cons s r ih =>
     obtain ⟨f, x⟩ := s
     obtain ⟨o1, o2, o3, o4⟩ := ok
     have hx : 0 < x.length := List.length_pos_iff.mpr o2
-    obtain ⟨i1, i2, i3⟩ := ih o4
+    obtain ⟨i1, i2, i3, _⟩ := ih o4
     simp only [occSegs, List.length_cons]
     omega
 
@@ -37,7 +38,7 @@ theorem countGo_spec {lo : Nat} {ps : Segs} (ok : Ok lo ps) (acc : Nat)
     obtain ⟨f, x⟩ := s
     obtain ⟨o1, o2, o3, o4⟩ := ok
     have hx : 0 < x.length := List.length_pos_iff.mpr o2
-    obtain ⟨i1, i2, i3⟩ := occAll_bounds o4
+    obtain ⟨i1, i2, i3, _⟩ := occAll_bounds o4
     simp only [occSegs, List.length_cons] at hb ⊢
     have hs : segLast (f, x) - (f, x).1 = x.length - 1 := by simp only [segLast]; omega
     rw [countGo_cons, hs, if_neg (by omega), ih o4 _ (by omega)]
@@ -49,7 +50,7 @@ theorem count_spec {ps : Segs} (inv : MInv ps) :
     count ps = .ok (min (occupied (abs ps) 0 4294967296) u32Max, ps.length) := by
   have ok : Ok 0 ps := inv
   have hu : u32Max = 4294967295 := rfl
-  obtain ⟨i1, i2, i3⟩ := occAll_bounds ok
+  obtain ⟨i1, i2, i3, i4⟩ := occAll_bounds ok
   have ho := occSegs_eq_occupied ok 0 4294967296
   rw [Nat.zero_add] at ho
   unfold count
@@ -78,19 +79,22 @@ theorem locLin_above_skip (lo : Nat) (ps : Segs) (i : Nat) :
   induction ps generalizing i with
   | nil => simp [locLin_nil, skipBelow]
   | cons s r ih =>
-    rw [locLin_cons]
-    simp only [skipBelow, List.length_cons]
+    rw [locLin_cons, List.length_cons]
     by_cases c1 : lo < s.1
     · have : ¬ segLast s < lo := by unfold segLast; omega
-      simp [c1, this]
+      have e : skipBelow lo (s :: r) = 0 := by simp [skipBelow, this]
+      rw [e, if_pos c1, if_pos (show 0 < r.length + 1 by omega)]; rfl
     · by_cases c2 : lo > segLast s
-      · have c2' : segLast s < lo := c2
-        rw [if_neg c1, if_pos c2, ih, if_pos c2']
+      · have e : skipBelow lo (s :: r) = skipBelow lo r + 1 := by
+          have c2' : segLast s < lo := c2
+          simp [skipBelow, c2']
+        rw [e, if_neg c1, if_pos c2, ih]
         by_cases c3 : skipBelow lo r < r.length
         · rw [if_pos c3, if_pos (by omega)]; congr 1; omega
         · rw [if_neg c3, if_neg (by omega)]
       · have : ¬ segLast s < lo := by omega
-        simp [c1, c2, this]
+        have e : skipBelow lo (s :: r) = 0 := by simp [skipBelow, this]
+        rw [e, if_neg c1, if_neg c2, if_pos (show 0 < r.length + 1 by omega)]; rfl
 
 theorem firstIdx_eq {l : Nat} {ps : Segs} (ok : Ok l ps) (lo : Nat) :
     firstIdx ps lo = .ok (skipBelow lo ps) := by
@@ -223,7 +227,7 @@ theorem countRange_spec {ps : Segs} (inv : MInv ps) (lo hi : Nat) (h : lo ≤ hi
   have ho := occSegs_eq_occupied ok lo (hi + 1 - lo)
   rw [show lo + (hi + 1 - lo) = hi + 1 by omega] at ho
   have hocc := occupied_le (abs ps) lo (hi + 1 - lo)
-  obtain ⟨l1, l2, l3⟩ := occAll_bounds ok
+  obtain ⟨l1, l2, l3, _⟩ := occAll_bounds ok
   have hm : (ps.filter (meets lo hi)).length ≤ ps.length := List.length_filter_le _ _
   have hsk := skipBelow_le lo ps
   unfold countRange
@@ -286,7 +290,7 @@ theorem iterRangeGo_spec {l : Nat} {q : Segs} (ok : Ok l q) (lo hi : Nat) (h : l
         · have := Ok_mem o4 ht; omega
       rw [hm, if_neg c]; rfl
 
-theorem iterRange_spec {ps : Segs} (inv : MInv ps) (lo hi : Nat) (h : lo ≤ hi) (hh : hi ≤ u32Max) :
+theorem iterRange_spec {ps : Segs} (inv : MInv ps) (lo hi : Nat) (h : lo ≤ hi) (_hh : hi ≤ u32Max) :
     iterRange ps lo hi = .ok ((ps.filter (meets lo hi)).map fun s =>
       ((max s.1 lo, min (segLast s) hi),
         (s.2.take (min (segLast s) hi + 1 - s.1)).drop (max s.1 lo - s.1))) := by
